@@ -202,7 +202,11 @@ func (r *rec) viols() (out []seqx.Viol, diverged bool) {
 			if r.write && n != "answer" && n != "panic" && !strings.HasPrefix(n, "stale-iterator") {
 				after = "write" // which member of the Set family came last does not characterise the failure
 			}
-			return []seqx.Viol{{Key: fmt.Sprintf("%s:%s:after-%s%s", n, w, after, r.class),
+			class := r.class
+			if strings.HasPrefix(n, "stale-iterator") {
+				class = "" // iterator invalidation does not depend on what the written key went through
+			}
+			return []seqx.Viol{{Key: fmt.Sprintf("%s:%s:after-%s%s", n, w, after, class),
 				What: fmt.Sprintf("%s disagrees with the reference model on %s after %s: %s", w, n, r.after, mm.msg)}}, true
 		}
 	}
